@@ -187,13 +187,13 @@ def checkStep (fold : Str → Str) (idx : Nat) (t : SlotTable) (st : Step) (obs 
   | .loadPm dst pm _ strict =>
     (t.put { slot := dst, expect := some (Loaders.prefixMapRecords pm) },
       checkInit idx "from_prefix_map" (.ok (Loaders.prefixMapRecords pm)) strict obs)
-  | .loadPriority dst data =>
+  | .loadPriority dst data _ =>
     (t.put { slot := dst, expect := (Loaders.priorityRecords data).toOption },
       checkInit idx "from_priority_prefix_map" (Loaders.priorityRecords data) true obs)
-  | .loadReverse dst rpm =>
+  | .loadReverse dst rpm _ =>
     (t.put { slot := dst, expect := (Loaders.reverseRecords rpm).toOption, expectAnyShortest := true },
       checkInit idx "from_reverse_prefix_map" (Loaders.reverseRecords rpm) true obs)
-  | .loadJsonld dst ctx =>
+  | .loadJsonld dst ctx _ =>
     (t.put { slot := dst, expect := ((Loaders.jsonldPrefixMap ctx).map Loaders.prefixMapRecords).toOption },
       checkInit idx "from_jsonld" ((Loaders.jsonldPrefixMap ctx).map Loaders.prefixMapRecords) true obs)
   | .loadUpgrade dst pm =>
